@@ -156,7 +156,7 @@ def run(chk, F, tier):
                         cc = b.blocks[r[1]][2][1]
                         for a in cc["a"]:
                             labs |= P.operand_labels(b, a)
-                raw = {l for l in labs if l[0] in ("ENTRY_ARG", "CALL", "CLOSURE_ARG")}
+                raw = {l for l in labs if l[0] in ("ENTRY_ARG", "CALL", "CLOSURE_ARG", "UNKNOWN")}
                 key = "%s#%d@%s" % ("quoted" if quoted else "oneline", ai, b.id)
                 chk.check(not raw, "R40b", key,
                           "%s writes a schema-derived string %s without escaping (template %r): a value containing %s yields "
@@ -182,4 +182,56 @@ def run(chk, F, tier):
                     inside = b.get("impl_self") is not None and b.ty(b.get("impl_self"))[3] == em
                     chk.check(inside, "R40c", "output-writer@%s" % b.id, "%s writes EmmyLuaEmitter.output directly, bypassing the emitter's sanitising methods" % b.id, b.loc())
     chk.floor("writers of the output buffer", nw, 5)
+    # R40d: a field line always has a type
+    chk.rule("R40d", "no `---@field` line is written with an empty type (write_field / write_index_field never receive a constant empty type)")
+    nf = 0
+    for b in F.bodies.values():
+        if b.crate != CR:
+            continue
+        for bb, c in b.calls():
+            n = name(c)
+            if not n.endswith(("EmmyLuaEmitter::write_field", "EmmyLuaEmitter::write_index_field")):
+                continue
+            nf += 1
+            ty_arg = c["a"][2] if n.endswith("write_field") else c["a"][2]
+            empty = ty_arg[0] == "k" and ty_arg[1] == "str" and ty_arg[2] == ""
+            tl = dataflow.operand_local(ty_arg)
+            if tl is not None:
+                rs = dataflow.roots(b, tl)
+                empty = bool(rs) and all(r[0] == "const" and r[1] in ("", '""') for r in rs)
+            chk.check(not empty, "R40d", "field-type@%s#%d" % (b.id.split("::")[-1], nf),
+                      "%s writes a `---@field` line with an empty type: the doc parser reports `expect type` for it" % b.id.split("::")[-1],
+                      b.loc(c["l"]), sample={"rule": "R40d", "site": b.id.split("::")[-1], "verdict": "type operand is not the empty constant"})
+    chk.floor("field-writing call sites", nf, 2)
+
+    # R40e: the escapes the emitter produces are escapes for the reader of the annotations
+    chk.rule("R40e", "the doc lexer scans quoted strings with backslash escapes (every TkString it produces comes from an escape-aware scanner), "
+                     "so the `\\\"` the emitter writes for a quote does not end the string")
+    DL = "emmylua_parser::lexer::lua_doc_lexer::"
+    import cfgutil as _cfg
+    nstr = 0
+    for b in F.bodies.values():
+        if not b.id.startswith(DL) or b.kind != "fn":
+            continue
+        succ = b.succ_map()
+        idom = _cfg.dominators(succ, 0)
+        for bi, blk in enumerate(b.blocks):
+            if blk[0]:
+                continue
+            for st in blk[1]:
+                if st[0] == "a" and st[2][0] == "agg" and st[2][1] == "adt" and (st[2][2] or "").endswith("LuaTokenKind") and st[2][3] == "TkString":
+                    nstr += 1
+                    aware = False
+                    for cb, cc in b.calls():
+                        if not (cb == bi or _cfg.dominates(idom, cb, bi)):
+                            continue
+                        callee = F.bodies.get(name(cc))
+                        if callee is not None and callee.crate == "emmylua_parser" and "\\" in char_consts(callee):
+                            aware = True
+                    chk.check(aware, "R40e", "doc-string-scan@%s#%d" % (b.id.split("::")[-1], nstr),
+                              "%s produces a TkString without an escape-aware scan (no dominating call to a scanner that tests for a backslash): "
+                              "`[\"q\\\"x\"]` written by the schema emitter ends at the escaped quote and the field line does not parse"
+                              % b.id.split("::")[-1], b.loc(st[3] if len(st) > 3 else None),
+                              sample={"rule": "R40e", "site": b.id.split("::")[-1], "verdict": "escape-aware scanner"})
+    chk.floor("TkString productions in the doc lexer", nstr, 2)
     chk.explanation = "Panic-surface audit; fmt templates decoded from MIR to find quoted/one-line placeholders, provenance of the written value with sanitiser recognition; who-may-write on the output buffer."
